@@ -53,6 +53,35 @@ theorem FB.read_wf (b : FB) (n : Nat) (h : b.wf) : (b.read n).1.wf := by
   simp only
   split <;> simp <;> omega
 
+/-- one FixedBuffer operation refines one step of the bounded FIFO -/
+theorem fb_step_refines (b : FB) (op : FOp) (h : b.wf) :
+    (b.step op).1.wf ∧ (b.step op).1.cap = b.cap ∧
+      ((b.step op).1.data, (b.step op).2) = qStep b.cap b.data op := by
+  cases op with
+  | w d =>
+    simp only [FB.step, qStep]
+    refine ⟨FB.write_wf b d h, FB.write_cap b d, ?_⟩
+    rw [FB.write_data, FB.write_full, FB.write_n b d h]
+  | r n =>
+    simp only [FB.step, qStep, FB.len]
+    by_cases he : b.data.length = 0
+    · have : b.data = [] := List.eq_nil_of_length_eq_zero he
+      simp [he, this, h]
+    · have hne : b.data ≠ [] := by intro h0; simp [h0] at he
+      simp only [he, if_false]
+      refine ⟨FB.read_wf b n h, ?_, ?_⟩
+      · unfold FB.read; simp only; split <;> rfl
+      · have h1 := FB.read_out b n
+        have h2 := FB.read_split b n
+        simp only [hne, List.isEmpty_iff, if_false]
+        rw [h1] at h2 ⊢
+        have : (b.read n).1.data = b.data.drop n := by
+          have h3 : b.data.take n ++ (b.read n).1.data = b.data.take n ++ b.data.drop n := by
+            rw [List.take_append_drop]; exact h2.symm
+          exact List.append_cancel_left h3
+        rw [this]
+  | reset => simp [FB.step, qStep, FB.reset, FB.wf]
+
 /-! ### Pipe level -/
 
 /-- nothing for a reader to return: exactly the condition under which `Read` parks -/
@@ -398,6 +427,96 @@ theorem winv_exec (w : World) (as : List WAct) (h : WInv w) : WInv (w.exec as) :
   induction as generalizing w with
   | nil => exact h
   | cons a as ih => exact ih _ (winv_step w a h)
+
+/-! ### several readers -/
+
+structure MInv (s : MSys) : Prop where
+  fifo : s.accepted = gone s.ledger ++ bufData s.p.b
+  order : (s.order.map Prod.snd).flatten = kept s.ledger
+  wf : ∀ fb, s.p.b = some fb → fb.wf
+
+theorem msignal_p (s : MSys) : (msignal s).p = s.p := by
+  unfold msignal; split <;> (try split) <;> rfl
+theorem msignal_acc (s : MSys) : (msignal s).accepted = s.accepted := by
+  unfold msignal; split <;> (try split) <;> rfl
+theorem msignal_ledger (s : MSys) : (msignal s).ledger = s.ledger := by
+  unfold msignal; split <;> (try split) <;> rfl
+theorem msignal_order (s : MSys) : (msignal s).order = s.order := by
+  unfold msignal; split <;> (try split) <;> rfl
+
+theorem minv_signal {s : MSys} (h : MInv s) : MInv (msignal s) :=
+  ⟨by rw [msignal_acc, msignal_ledger, msignal_p]; exact h.fifo,
+   by rw [msignal_order, msignal_ledger]; exact h.order,
+   by rw [msignal_p]; exact h.wf⟩
+
+theorem close_b (p : Pipe) (e : Err) (fn : Bool) : (p.close e fn).b = p.b := by
+  rcases close_cases p e fn with ⟨_, hr⟩ | ⟨_, hr⟩ | ⟨_, hr⟩ <;> rw [hr]
+theorem brk_b (p : Pipe) (e : Err) : (p.brk e).b = p.b := by
+  rcases brk_cases p e with ⟨_, hr⟩ | ⟨_, hr⟩ | ⟨_, hr⟩ <;> rw [hr]
+
+theorem minv_init (cap k : Nat) : MInv (MSys.init cap k) := by
+  refine ⟨?_, ?_, ?_⟩ <;> simp [MSys.init, Pipe.new, gone, kept, bufData, FB.wf]
+
+theorem minv_step (s : MSys) (a : MAct) (h : MInv s) : MInv (s.step a).1 := by
+  obtain ⟨h1, h2, h3⟩ := h
+  cases a with
+  | write d =>
+    simp only [MSys.step]
+    apply minv_signal
+    by_cases hc : s.p.err.isSome ∨ s.p.b = none
+    · rw [write_closed _ _ hc]; exact ⟨by simpa using h1, h2, h3⟩
+    · have he : s.p.err = none := by cases h : s.p.err <;> simp_all
+      obtain ⟨fb, hb⟩ : ∃ fb, s.p.b = some fb := by cases h : s.p.b <;> simp_all
+      rw [write_open _ _ fb he hb]
+      refine ⟨?_, h2, ?_⟩
+      · simp only [hb, bufData] at h1 ⊢
+        simp only [FB.write_data, h1, List.append_assoc]
+      · intro fb'; simp only [Option.some.injEq]
+        intro h; subst h; exact FB.write_wf _ _ (h3 fb hb)
+  | close e fn =>
+    simp only [MSys.step]
+    apply minv_signal
+    exact ⟨by simp only [close_b]; exact h1, h2, by simp only [close_b]; exact h3⟩
+  | brk e =>
+    simp only [MSys.step]
+    apply minv_signal
+    exact ⟨by simp only [brk_b]; exact h1, h2, by simp only [brk_b]; exact h3⟩
+  | discard =>
+    simp only [MSys.step]
+    cases hb : s.p.b with
+    | none => exact ⟨h1, h2, h3⟩
+    | some fb =>
+      refine ⟨?_, ?_, ?_⟩
+      · simp only [hb, bufData] at h1 ⊢
+        rw [gone_append_false, h1]; simp [FB.reset]
+      · simp only; rw [kept_append_false]; exact h2
+      · intro fb' hfb'; simp at hfb'; subst hfb'
+        have := h3 fb hb
+        unfold FB.wf FB.reset at *; simp
+  | startRead i n =>
+    simp only [MSys.step]
+    split <;> exact ⟨h1, h2, h3⟩
+  | readerStep i =>
+    simp only [MSys.step]
+    split
+    · rename_i n _
+      rcases readTry_cases s.p n with ⟨e, hb, hr⟩ | ⟨fb, hb, hbuf, hl, hr⟩ | ⟨e, hb, hd, he, hr⟩ | ⟨hq, hr⟩ <;>
+        rw [hr] <;> simp only
+      · exact ⟨h1, h2, h3⟩
+      · refine ⟨?_, ?_, ?_⟩
+        · simp only [hbuf, bufData] at h1 ⊢
+          rw [gone_append_true, h1, List.append_assoc, ← FB.read_split]
+        · rw [kept_append_true, ← h2]; simp
+        · intro fb' hfb'; simp at hfb'; subst hfb'; exact FB.read_wf _ _ (h3 fb hbuf)
+      · exact ⟨h1, h2, h3⟩
+      · exact ⟨h1, h2, h3⟩
+    · exact ⟨h1, h2, h3⟩
+
+theorem minv_exec (s : MSys) (as : List MAct) (h : MInv s) : MInv (s.exec as) := by
+  unfold MSys.exec
+  induction as generalizing s with
+  | nil => exact h
+  | cons a as ih => exact ih _ (minv_step s a h)
 
 /-- Reachable pipe states: a single pipe under any schedule, or any pipe of any lifecycle over the pool -/
 def Reachable (s : Sys) : Prop :=
